@@ -261,6 +261,7 @@ func runCheck(prop, tier string) int {
 		if v, ok := h.Preempt[tier]; ok {
 			bud.Preempt = v
 		}
+		bud.Termination = h.Termination
 		params := paramsFor(h, tier)
 		qto := 10000
 		if tier == "thorough" {
